@@ -226,7 +226,7 @@ def shard(ctx):
         g = gen.ProgGen(rng, n_lets=(1, 5), n_macros=(0, 3), max_depth=rng.choice([2, 3, 4]), p_shadow=rng.choice([0.3, 0.8]),
                         p_hostile_names=0.05, macro_sub=rng.random() < 0.3, p_usepulses=0.3, p_let_reg=0.5,
                         p_let_count=0.6, p_let_index=0.5, p_let_arg=0.5, wild_numbers=rng.random() < 0.3, p_sub_count=0.7,
-                        allow_reg_args=rng.random() < 0.5)
+                        allow_reg_args=rng.random() < 0.5, p_qualified_twin=0.25)
         prog = g.program()
         earlier = []
         for attempt in range(3):
